@@ -135,6 +135,47 @@ PR3_CASES = [("300d8001ffa108800105a1030101ff", True), ("300d8001ffa108800100a10
              ("300d8001ffa108800107a103020101", False)]
 
 
+# a row type that closes a type cycle: asn1c makes that ALTERNATIVE of the open-type CHOICE a pointer member (ATF_POINTER)
+PR5 = """PR5 DEFINITIONS AUTOMATIC TAGS ::= BEGIN
+  MY-CLASS ::= CLASS { &id INTEGER UNIQUE, &Type } WITH SYNTAX { ID &id TYPE &Type }
+  MySet MY-CLASS ::= { { ID 1 TYPE R1 } | { ID 2 TYPE Frame } }
+  Frame ::= SEQUENCE { id MY-CLASS.&id({MySet}), value MY-CLASS.&Type({MySet}{@id}) }
+  R1 ::= INTEGER
+END
+"""
+# (encoding, input, DER of the value or None = must be refused)
+PR5_DER1, PR5_DER2 = "300f800102a10a3008800101a103020105", "3016800102a111300f800102a10a3008800101a103020107"
+PR5_CASES = [("ber", PR5_DER1, PR5_DER1), ("ber", PR5_DER2, PR5_DER2), ("uper", "0102050101020105", PR5_DER1), ("oer", "0102050101020105", PR5_DER1),
+             ("xer", "3c4672616d653e3c69643e323c2f69643e3c76616c75653e3c4672616d653e3c69643e313c2f69643e3c76616c75653e3c52313e353c2f52313e3c2f76616c75653e3c2f4672616d653e3c2f76616c75653e3c2f4672616d653e", PR5_DER1), ("ber", "3008800101a103020105", "3008800101a103020105"),
+             ("ber", "300f800101a10a3008800101a103020105", None), ("ber", "300f800102a10a3008800101a1030101ff", None),   # row 1 holding a Frame; inner row 1 holding a BOOLEAN
+             ("ber", "300f800102a10a3008800101a1030201", None), ("uper", "01020501010201", None), ("oer", "0102050101020205", None)]
+
+
+def probe_recursive_row(run, p):
+    """a row type that refers back to the frame (finding C18-pointer-alternative-slot, fixed): the selected alternative is a
+    pointer member, the decoder of the row type must get the address of that pointer and allocate; valid frames come back,
+    broken ones are refused without a sanitizer report"""
+    run.case(p["fs"] + " build PR5")
+    if not p.get("exe"):
+        run.violation("build:module", {"what": "the probe module with a recursive row type does not build", "module": PR5, "options": p["opts"],
+                                       "asn1c_rc": p.get("asn1c_rc"), "asn1c_out": p.get("asn1c_out", "")[-1500:], "build_log": p.get("build_log", "")[-1500:]})
+        return
+    lines = ["dec Frame %s %s" % (s, h) for s, h, _ in PR5_CASES]
+    outs, crashes, leak = run_resilient(p["exe"], lines)
+    for i, ((s, h, der), l, o) in enumerate(zip(PR5_CASES, lines, outs)):
+        run.case(p["fs"] + " " + l)
+        good = o.startswith("OK %d %s ck=0" % (len(h) // 2, der)) if der else o.startswith(("FAIL", "MORE"))
+        if good:
+            run.count("probe_recursive_row_" + ("valid_ok" if der else "broken_refused"))
+        else:
+            run.violation("crash:recursive-row-type" if o == "CRASH" else "oracle:opentype_roundtrip(recursive row type)",
+                          {"module": PR5, "options": p["opts"], "command_line": l, "c": o, "expected": ("OK .. " + der) if der else "FAIL/MORE",
+                           "what": "open type whose selected alternative is a pointer member (recursive row type): valid frame not returned / broken frame not refused",
+                           "stderr_tail": crashes.get(i, "")[-2000:]})
+    if leak is not None:
+        run.violation("leak:recursive-row-type", {"module": PR5, "what": "sanitizer report at exit", "stderr_tail": leak[-2500:]})
+
+
 def probe_id_after_open_type(run, p):
     """findings C18-identifier-after-open-type (the selector runs before the identifier member is decoded: it sees the
     zero-initialised member) and C18-integer-compare-empty-null (with INTEGER_t identifiers that member is an empty INTEGER_t,
@@ -1009,7 +1050,7 @@ def main(tier):
     model = model_build()
     base = corpus(rng, tier)
     probes0 = [{"name": t.split()[0], "text": t, "defs": [("Frame", None)], "probe": fid} for fid, t in PROBES.items()]
-    probes0 += [{"name": n, "text": t, "defs": [("Frame", None)], "probe": None} for n, t in (("PR1", PR1), ("PR2", PR2), ("PR3", PR3), ("PR4", PR4))]
+    probes0 += [{"name": n, "text": t, "defs": [("Frame", None)], "probe": None} for n, t in (("PR1", PR1), ("PR2", PR2), ("PR3", PR3), ("PR4", PR4), ("PR5", PR5))]
     built = []
     for fs, opts, which in FLAGSETS[tier]:
         rep = "wide" if "-fwide-types" in opts else "native"
@@ -1031,6 +1072,8 @@ def main(tier):
                 probe_inline_frame(run, p)
             elif p["name"] == "PR4":
                 probe_rep_mismatch(run, p)
+            elif p["name"] == "PR5":
+                probe_recursive_row(run, p)
             elif p["probe"] is None:
                 if p.get("exe"):
                     (probe_optional_open_type if p["name"] == "PR1" else probe_id_after_open_type)(run, p)
